@@ -96,7 +96,7 @@ fn spawn_watchdog(id: String, tier: String) {
             let j = j.lock().unwrap();
             if let Some(t) = j.started {
                 if t.elapsed().as_secs_f64() > drv::HANG_S {
-                    let dir = format!("{}/replays/{}", drv::VERIF, id);
+                    let dir = format!("{}/replays/{}", drv::verif_root(), id);
                     let _ = std::fs::create_dir_all(&dir);
                     let path = format!("{}/{}-hang.json", dir, tier);
                     let detail = format!("the last event of this history had not returned after {} s (unbounded time)", drv::HANG_S);
@@ -118,8 +118,8 @@ fn write_abort_evidence(id: &str, tier: &str, detail: &str) {
         "coverage": {"explanation": format!("exploration stopped at its first fatal event: {}", detail), "exhaustive": false},
         "assumptions": [], "wall_s": 0.0, "violations": 1
     });
-    let _ = std::fs::create_dir_all(format!("{}/evidence", drv::VERIF));
-    let _ = std::fs::write(format!("{}/evidence/{}.json", drv::VERIF, id), serde_json::to_string_pretty(&j).unwrap() + "\n");
+    let _ = std::fs::create_dir_all(format!("{}/evidence", drv::verif_root()));
+    let _ = std::fs::write(format!("{}/evidence/{}.json", drv::verif_root(), id), serde_json::to_string_pretty(&j).unwrap() + "\n");
 }
 
 fn crashreport(id: &str, tier: &str, dir: &str) -> ExitCode {
@@ -133,7 +133,7 @@ fn crashreport(id: &str, tier: &str, dir: &str) -> ExitCode {
             Err(_) => false,
         };
         if died {
-            let rdir = format!("{}/replays/{}", drv::VERIF, id);
+            let rdir = format!("{}/replays/{}", drv::verif_root(), id);
             let _ = std::fs::create_dir_all(&rdir);
             let path = format!("{}/{}-abort.json", rdir, tier);
             let _ = std::fs::copy(&f, &path);
